@@ -302,7 +302,8 @@ impl Property for C07 {
         for _ in 0..steps {
             let with_lf = r.chance(2, 5);
             let mut s = String::new();
-            let n = r.below(8);
+            // mostly short; one argument in sixteen is 4-70 KB long (line lengths around the usual buffer sizes)
+            let n = if r.chance(1, 16) { *r.pick(&[4060usize, 4080, 4096, 8200, 70_000]) + r.below(40) } else { r.below(8) };
             for _ in 0..n {
                 s.push(*r.pick(&['a', ' ', '"', '\\', '\'', 'é', '\t', '\r', 'z', '0']));
             }
